@@ -11,6 +11,7 @@ import Hts.Lemmas.ReaderProps
 import Hts.Lemmas.ReaderLTSTerm
 import Hts.Lemmas.ReaderLTSExact
 import Hts.Lemmas.ReaderLTSFile
+import Hts.Lemmas.ReaderOverLTSCall
 namespace Hts.Props.C02
 open Hts.Model.Bgzf Hts.Spec.Flat
 
@@ -244,6 +245,57 @@ theorem readahead_history_returns_flat_bytes (F : File) (hwf : WF F) (r0 : Reade
   exact ⟨fun b i ok b0 h1 h2 => by rw [this.1 b i ok h1 h2, blkOf_load hwf],
     fun w ok b0 h1 h2 => by rw [this.2 w ok h1 h2, blkOf_load hwf]⟩
 
+open Hts.Model Hts.Model.Bgzf Hts.Model.ReadAhead Hts.Spec.Flat in
+/-- **rd > 1 returns the flat bytes — as a statement about bytes.**  `Model/ReaderOverLTS.lean` puts the byte-level
+code of `Read`/`ReadByte`/`Seek` (the loops of `Model/BgzfReader.lean`, written as a program `gRun r0 ops` that makes
+a call where the sequential model loads a block) on top of the protocol: `Over cfg F p s outs t` runs the program
+with every `nextBlock()`/`Seek` being the consumer's next script operation followed by ANY path of the LTS (any
+interleaving with the worker) up to the consumer's return, the block delivered being the protocol's current block
+with the payload of the file at its base.  For every well-formed file, every rd, every script of
+nextBlock/Seek/Close operations, every valid history and EVERY such execution without faults from `NewReader`: per
+operation the bytes, the error and the reader state (hence `LastChunk()`, `BlockLen()`) are those of the sequential
+reader, hence those of the flat specification.  (An execution gets as far as the script agrees with the calls the
+history makes; `readahead_bytes_execution_exists` gives the script with which it runs to the end.) -/
+theorem readahead_bytes_refine_flat (F : File) (hwf : WF F) (r0 : Reader) (h0 : Reader.new F = .ok r0)
+    (ops : List Spec.Flat.Op) (hv : ValidOps (layoutOf F) ops) (rd : Nat) (script : List ReadAhead.Op)
+    (hn : ReadAhead.Op.nexts ∉ script) (outs : List (Out × Reader)) (t : ReadAhead.State)
+    (h : Over ⟨rd, chainOf F, script, false⟩ F (gRun r0 ops)
+      (ReadAhead.init ⟨rd, chainOf F, script, false⟩) outs t) :
+    outs = r0.run ops ∧
+    outs.map Reader.observe = (run (flatOf F) Spec.Flat.init ops).map observeFlat := by
+  have := over_history_eq_sequential hwf h0 ops rd script hn outs t h
+  exact ⟨this, by rw [this]; exact read_refines_flat F hwf r0 h0 ops hv⟩
+
+open Hts.Model Hts.Model.Bgzf Hts.Model.ReadAhead Hts.Spec.Flat in
+/-- The same for an ADAPTIVE client (`Client`: each operation chosen from the outputs and reader states seen so far,
+as `bam.Reader`, `bam.Iterator` and `index.ChunkReader` do): every execution over the fault-free protocol returns
+what the client gets from the sequential reader, and leaves the same reader state. -/
+theorem readahead_client_refines_sequential {α : Type} (F : File) (hwf : WF F) (r0 : Reader)
+    (h0 : Reader.new F = .ok r0) (c : Client α) (rd : Nat) (script : List ReadAhead.Op)
+    (hn : ReadAhead.Op.nexts ∉ script) (res : α × Reader) (t : ReadAhead.State)
+    (h : Over ⟨rd, chainOf F, script, false⟩ F (c.prog r0)
+      (ReadAhead.init ⟨rd, chainOf F, script, false⟩) res t) :
+    res = c.run r0 := by
+  have ht := tracks_new hwf h0
+  have := over_eq_seq (cfg := ⟨rd, chainOf F, script, false⟩) rfl rfl h .init hn
+  rw [this]
+  have hi : (ReadAhead.init ⟨rd, chainOf F, script, false⟩).cur = blkOf r0.cur := by rw [ht.2]; rfl
+  rw [hi]
+  exact client_seq hwf c r0 ht.1
+
+open Hts.Model Hts.Model.Bgzf Hts.Model.ReadAhead Hts.Spec.Flat in
+/-- **Such executions exist and run to the end.**  For every rd ≥ 2: with the calls the history makes as the
+consumer's script (`Prog.calls`; followed by any further operations, e.g. `close`), the history runs over the
+protocol to its last operation — every call returns (dead-lock freedom and the global measure; no fairness
+assumption) — and by `readahead_bytes_refine_flat` whatever such an execution returns is the sequential
+reader's answer. -/
+theorem readahead_bytes_execution_exists (F : File) (hwf : WF F) (r0 : Reader) (ops : List Spec.Flat.Op)
+    (rd : Nat) (hrd : 2 ≤ rd) (tl : List ReadAhead.Op) (htl : ReadAhead.Op.nexts ∉ tl) :
+    ∃ outs t,
+      Over ⟨rd, chainOf F, (gRun r0 ops).calls F ⟨some 0, chainOf F 0⟩ ++ tl, false⟩ F (gRun r0 ops)
+        (ReadAhead.init ⟨rd, chainOf F, (gRun r0 ops).calls F ⟨some 0, chainOf F 0⟩ ++ tl, false⟩) outs t :=
+  over_exists (cfg_ok hwf rd hrd _ false) rfl rfl (gRun r0 ops) _ tl .init rfl rfl htl
+
 open Hts.Model Hts.Model.ReadAhead in
 /-- After `Close` has returned the worker goroutine has returned. -/
 theorem reader_no_leak (cfg : Cfg) (hc : cfg.OK) (s : ReadAhead.State) (h : Reachable cfg s) (hcl : s.cons = .closed) :
@@ -290,6 +342,19 @@ example : ∃ r0, Reader.new exFile = .ok r0 ∧
       [([1, 2], none), ([3, 4, 5], some .eof), ([], some .eof), ([], none), ([4], none), ([], none),
        ([], none), ([2, 3], some .eof), ([4, 5], some .eof), ([0], some .eof)] :=
   ⟨_, rfl, by decide⟩
+
+open Hts.Model Hts.Model.ReadAhead in
+/-- Non-vacuity of `readahead_bytes_refine_flat`: over `exFile` with rd = 3 the history `exOps` makes these eleven
+calls into the protocol; an execution over the protocol with that script (then `close`) exists, and whatever any
+such execution returns is the list above. -/
+example : ∃ r0, Reader.new exFile = .ok r0 ∧
+    (gRun r0 exOps).calls exFile ⟨some 0, chainOf exFile 0⟩ =
+      [.next, .next, .next, .next, .seek 30, .next, .seek 0, .next, .next, .next, .next] ∧
+    (∃ outs t, Over ⟨3, chainOf exFile, (gRun r0 exOps).calls exFile ⟨some 0, chainOf exFile 0⟩ ++ [.close], false⟩
+        exFile (gRun r0 exOps)
+        (ReadAhead.init ⟨3, chainOf exFile, (gRun r0 exOps).calls exFile ⟨some 0, chainOf exFile 0⟩ ++ [.close], false⟩)
+        outs t) :=
+  ⟨_, rfl, by decide, readahead_bytes_execution_exists exFile exFile_wf _ exOps 3 (by decide) [.close] (by simp)⟩
 
 example : (flatOf exFile).WF := flatOf_wf exFile_wf
 
